@@ -18,6 +18,7 @@ STUBS_EXTRA = ["the oracle's rule semantics is structural (harness.common.rule_p
 
 
 POOLS = {
+    "s": [{"special": b"LOCALHOST", "paths": 1}, {"special": b"[2001:DB8::1]", "paths": 2}, {"special": b"127.0.0.1"}],
     "a": [{"hosts": 2, "scheme": None}, {"hosts": 2, "paths": 1}, {"hosts": 3, "paths": 2}],
     "b": [{"hosts": 1, "www": True}, {"hosts": 2, "www": True, "paths": 1}, {"hosts": 3}],
     "c": [{"hosts": 2, "port": True}, {"hosts": 2, "port": True, "paths": 2}, {"hosts": 1}],
@@ -28,13 +29,17 @@ def levels(tier):
     if tier == "quick":
         return [
             {"name": "pages-n1", "pools": ["a", "b"], "n": 1, "alphabet": ["page"], "defaults": ["domain", "path1"],
-             "anchored": [None, (1, 3, "path1"), (1, 4, "path1"), (0, 3, "subdomain")]},
+             "anchored": [None, (1, 4, "path1"), (0, 3, "subdomain")]},
             {"name": "pages-n2", "pools": ["a"], "n": 2, "alphabet": ["page"], "defaults": ["domain"],
              "anchored": [None, (1, 4, "path1")]},
             {"name": "handmade", "pools": ["a"], "n": 1, "prelude": [["we", [[0, 3]]]], "alphabet": ["page", "we"],
              "defaults": ["subdomain", "path1"], "anchored": [None, (2, 5, "path1")]},
             {"name": "install", "pools": ["a"], "n": 2, "alphabet": ["page"], "defaults": ["domain"],
              "anchored": [None], "late_rule": [(1, 4, "path1"), (2, 1, "subdomain")]},
+            {"name": "special-hosts", "pools": ["s"], "n": 2, "alphabet": ["page"], "defaults": ["domain", "path1"],
+             "anchored": [None, (0, 2, "path1"), (1, 2, "path2"), (2, 1, "subdomain")]},
+            {"name": "reopen", "pools": ["a"], "n": 2, "prelude": [["page", 1, False]], "alphabet": ["page", "delwe", "reopen"], "defaults": ["domain"],
+             "anchored": [(1, 3, "path1")], "backend": "file"},
         ]
     return [
         {"name": "pages-n2", "pools": ["a", "b", "c"], "n": 2, "alphabet": ["page", "links", "we"], "defaults": ["domain", "subdomain", "path1", "path2"],
@@ -43,6 +48,12 @@ def levels(tier):
          "anchored": [None, (1, 3, "path1"), (1, 4, "path1"), (2, 3, "path2")]},
         {"name": "install", "pools": ["a", "b", "c"], "n": 3, "alphabet": ["page"], "defaults": ["domain", "subdomain"],
          "anchored": [None, (2, 1, "path1")], "late_rule": [(1, 3, "path1"), (1, 4, "path1"), (2, 4, "path2"), (2, 1, "subdomain"), (0, 2, "path1")]},
+        {"name": "special-hosts", "pools": ["s"], "n": 2, "alphabet": ["page", "we"], "defaults": ["domain", "subdomain", "path1", "path2"],
+         "anchored": [None, (0, 2, "path1"), (1, 2, "path2"), (2, 1, "subdomain"), (1, 3, "path1")]},
+        {"name": "reopen", "pools": ["a"], "n": 3, "prelude": [["page", 1, False]], "alphabet": ["page", "delwe", "reopen", "we"], "defaults": ["domain"],
+         "anchored": [(1, 3, "path1"), (1, 4, "path1")], "backend": "file"},
+        {"name": "handmade", "pools": ["a", "b"], "n": 2, "prelude": [["we", [[0, 3]]]], "alphabet": ["page", "we"],
+         "defaults": ["subdomain", "path1", "domain"], "anchored": [None, (2, 5, "path1")]},
         {"name": "L2", "pools": ["a"], "L": 2, "n": 2, "alphabet": ["page"], "defaults": ["domain", "path1"], "anchored": [None, (1, 3, "path1")]},
     ]
 
@@ -111,16 +122,23 @@ def harness(E):
         rules[a.lru] = RULES[rn]
         ref.name(a)
         ref.rules.set(a.lru, rn)
-    t = E.Traph(folder=None, default_webentity_creation_rule=RULES[default], webentity_creation_rules=rules)
-    h = History(E, t, ref, pool, P["alphabet"], P)
+    opts = dict(P)
+    folder = None
+    if P.get("backend") == "file":
+        folder = E.fresh_folder("idx")
+        opts["folder"] = folder
+    t = E.Traph(folder=folder, default_webentity_creation_rule=RULES[default], webentity_creation_rules=rules)
+    h = History(E, t, ref, pool, P["alphabet"], opts)
     if P.get("prelude"):
         h.prelude(P["prelude"])
-        E.reach("hand-made-webentity")
+        if any(x[0] == "we" for x in P["prelude"]):
+            E.reach("hand-made-webentity")
     for i in range(P["n"]):
         # potential prefix of every pool LRU (inserted or not), without side effects
         for q in pool:
             want = expected_potential(E, ref, q)
             before = snapshot(E, t)
+            t = h.t
             ok, got = E.call("get_potential_prefix", t.get_potential_prefix, q.lru, _allowed=())
             after = snapshot(E, t)
             E.check(E.all(E.eq(before[0], after[0]), E.eq(before[1], after[1])), "potential:no-side-effect", "get_potential_prefix changed a store")
@@ -129,8 +147,11 @@ def harness(E):
             else:
                 E.check(bool(got) and same(E.wrap(got), want.lru), "potential:value", "potential prefix is not max(E, K)")
         kind, info = h.step(i)
+        t = h.t
         if kind == "we":
             E.reach("hand-made-webentity")
+            continue
+        if kind in ("delwe", "reopen"):
             continue
         check_created(E, info)
         for pl in info.get("pages", []):
@@ -149,4 +170,6 @@ def harness(E):
         h.install_model(a, rep)
         check_created(E, {"report": rep, "created": list(ref.created)})
     z = E.const(b"p:zz|")
-    battery(E, t, ref, pool, pool[0].extend(z, "P0+z"))
+    battery(E, h.t, ref, pool, pool[0].extend(z, "P0+z"))
+    if folder is not None:
+        h.t.close()
